@@ -49,6 +49,9 @@ def main(ctx):
         if f["fault"] == "trunc" and f["t"] < magic:
             skipped["shorter-than-magic-number"] = skipped.get("shorter-than-magic-number", 0) + 1
             continue
+        if f["fault"] == "flip" and f["t"] < magic * 8:
+            skipped["flip-inside-magic-number"] = skipped.get("flip-inside-magic-number", 0) + 1
+            continue
         if kind == "none" and f["fault"] != "none":
             k = "undetectable-by-codec(same=%d)" % f["same"]
             skipped[k] = skipped.get(k, 0) + 1
@@ -61,7 +64,7 @@ def main(ctx):
             jobs.append({"argv": argv, "stdin": stdin})
             evs.append({"op": "file", "mode": name, "codec": f["codec"], "fault": f["fault"], "t": f["t"], "clen": f["clen"],
                         "fmt": f["fmt"], "size": f["size"], "kind": kind, "D": f["D"], "d": f["d"], "S": S, "B": B,
-                        "nrec": f["nrec"], "errtext": f["errtext"][:80], "hung": 0})
+                        "nrec": f["nrec"], "errtext": f["errtext"][:80], "hung": 0, "pgz": f.get("pgz", "")})
     res = ctx.run_many(jobs, timeout=180)
     for e, r in zip(evs, res):
         e["rc"] = r["rc"]
@@ -92,12 +95,14 @@ def main(ctx):
         ctx.expect_vacuity("%s intact files" % codec, real_sites.get(codec + "/none", 0))
     for r in rejects:
         e = events[r["l"] - 1]
-        where = "trailer-start" if (e["codec"] == "gz" and e["fault"] == "trunc" and e["t"] == e["clen"] - 8) else "inside"
+        # the file readers decompress .gz with klauspost/pgzip: when that library itself takes the faulted bytes
+        # for a complete stream, the acceptance is the third-party module's (known finding), not the repository's
+        where = "pgzip-accepts" if (e["mode"].endswith("-file") and e.get("pgz") == "accepts") else "inside"
         cls = "%s/%s/%s/%s/%s" % (e["mode"], e["codec"], e["fault"], e["kind"], where)
         ctx.violation("C17.%s.%s" % (e["mode"], r["why"]), cls,
                       "%s on %s file (%s at %d of %d bytes; codec delivers %d of %d bytes then '%s'): rc=%d, %d of %d records written"
                       % (e["mode"], e["codec"], e["fault"], e["t"], e["clen"], e["d"], e["D"], e["errtext"], e["rc"], e["nrec_out"], e["nrec"]), e)
     ctx.samples += [events[0], next((e for e in events if e["fault"] == "trunc"), events[0])]
     ctx.assumptions += ["the codec library run directly on the faulted bytes is the instrument that says whether (and after how many bytes) the fault is detectable; faults it cannot see are skipped (counted in skipped_faults)",
-                        "empty prefix (t=0) is a legitimately empty input and is not a fault; a prefix shorter than the codec's magic number cannot be recognised as compressed and is not asserted"]
+                        "empty prefix (t=0) is a legitimately empty input and is not a fault; a prefix shorter than the codec's magic number, or a bit flip inside it, cannot be recognised as compressed input and is not asserted"]
     return ctx.finish(rule="event = (command, transport) x (codec, file, truncation length | flipped bit | intact)")
